@@ -179,18 +179,21 @@ class Run:
     # ----------------------------------------------------------------- build queries
     def build_query(self, ob, extra=None, tag=""):
         asserts = []
-        if ob.assume is not None:
-            asserts.append(ob.assume)
         subs = []
         unwind = []
         ubs = []
+        sub = lambda e: z3.substitute(e, *subs) if subs else e
         for c in ob.calls:
             r = c.encode()
-            asserts.extend(r.assumes)
-            subs.append((c.out, c.term))
+            # a later call may take an earlier call's result as argument: substitute progressively
+            asserts.extend(sub(x) for x in r.assumes)
             if not z3.is_false(r.unwind):
-                unwind.append(r.unwind)
-            ubs.extend(r.ub)
+                unwind.append(sub(r.unwind))
+            ubs.extend((k, t, sub(cnd)) for k, t, cnd in r.ub)
+            subs.append((c.out, sub(c.term)))
+        ob._subs = list(subs)
+        if ob.assume is not None:
+            asserts.insert(0, sub(ob.assume))
         if ob.ub:
             bad = [cnd for _, _, cnd in ubs] + unwind
             if not bad:
@@ -198,7 +201,7 @@ class Run:
             else:
                 asserts.append(z3.Or(bad))
         else:
-            g = z3.substitute(ob.goal, *subs) if subs else ob.goal
+            g = sub(ob.goal)
             if ob.kind == "witness":
                 asserts.append(g)
             else:
@@ -233,57 +236,67 @@ class Run:
         ms = [(c, z3.BitVecVal(model.get(c.decl().name(), 0), c.size())) for c in ob.inputs]
         info = {"inputs": {c.decl().name(): to_s(model.get(c.decl().name(), 0), c.size()) for c in ob.inputs},
                 "calls": [], "natives": {}}
-        calls = []
+        # what the encoding predicts (placeholders of earlier calls substituted by their encoded terms)
+        esubs = list(ms)
         for c in ob.calls:
-            argv = []
-            for a in c.args:
-                e = self.eval_under(a, ms)
-                if not z3.is_bv_value(e):
-                    return "mismatch", {"error": "argument not determined by model: %s" % e}
-                argv.append(e.as_long())
-            calls.append((c, argv))
-            enc_out = self.eval_under(c.term, ms)
-            info["calls"].append({"unit": c.unit.name, "cxx": c.unit.body, "args": [str(a) for a in argv],
+            enc_out = self.eval_under(c.term, esubs)
+            argv = [self.eval_under(a, esubs) for a in c.args]
+            info["calls"].append({"unit": c.unit.name, "cxx": c.unit.body,
+                                  "args": [str(x.as_long()) if z3.is_bv_value(x) else str(x) for x in argv],
                                   "encoded_out": str(enc_out.as_long()) if z3.is_bv_value(enc_out) else str(enc_out)})
             r = c.res
-            if not z3.is_false(r.unwind) and z3.is_true(self.eval_under(r.unwind, ms)):
+            if not z3.is_false(r.unwind) and z3.is_true(self.eval_under(r.unwind, esubs)):
                 return "unwinding", info
-        if ob.ub:
-            sites = []
-            for c in ob.calls:
-                for kind, text, cnd in c.res.ub:
-                    if z3.is_true(self.eval_under(cnd, ms)):
-                        sites.append({"unit": c.unit.name, "ub": kind, "ir": text})
-            info["ub_sites"] = sites
-            died = False
-            for c, argv in calls:
-                nat = c.h.native(UB_NATIVE[0], UB_NATIVE[1], UB_NATIVE[2], std=c.std)
-                out = nat.run([(c.unit.name, argv)])[0]
-                info["natives"].setdefault("ubsan-trap", []).append(repr(out))
-                if isinstance(out, B.Died):
-                    died = True
-            return ("reproduced" if died else "not-reproduced"), info
-        reproduced = False
-        agree_enc = False
-        for cfg in (ob.natives or DEFAULT_NATIVES):
+            if z3.is_bv_value(enc_out):
+                esubs.append((c.out, enc_out))
+            elif c is not ob.calls[-1] and not ob.ub:
+                # value defined through fresh symbols (by-specification ops): take it from the solver's model if present
+                pass
+
+        def run_calls(cfg):
+            """run the calls in order on one native build; later calls see the native results of earlier ones"""
+            sub = list(ms)
             outs = []
-            dead = False
-            for c, argv in calls:
+            for c in ob.calls:
+                argv = []
+                for a in c.args:
+                    e = self.eval_under(a, sub)
+                    if not z3.is_bv_value(e):
+                        return None, "argument of %s not determined: %s" % (c.unit.name, e)
+                    argv.append(e.as_long())
                 nat = c.h.native(cfg[0], cfg[1], cfg[2] if len(cfg) > 2 else (), std=c.std)
                 out = nat.run([(c.unit.name, argv)])[0]
                 outs.append(out)
                 if isinstance(out, B.Died):
-                    dead = True
+                    return outs, "died"
+                sub.append((c.out, z3.BitVecVal(out, c.out.size())))
+            return outs, sub
+
+        if ob.ub:
+            sites = []
+            for c in ob.calls:
+                for kind, text, cnd in c.res.ub:
+                    if z3.is_true(self.eval_under(cnd, esubs)):
+                        sites.append({"unit": c.unit.name, "ub": kind, "ir": text})
+            info["ub_sites"] = sites
+            outs, st = run_calls(UB_NATIVE)
+            info["natives"]["ubsan-trap"] = [repr(o) for o in (outs or [])] if outs is not None else st
+            return ("reproduced" if st == "died" else "not-reproduced"), info
+        reproduced = False
+        for cfg in (ob.natives or DEFAULT_NATIVES):
             key = " ".join(cfg[:2])
+            outs, st = run_calls(cfg)
+            if outs is None:
+                return "mismatch", {"error": st}
             info["natives"][key] = [repr(o) if isinstance(o, B.Died) else str(o) for o in outs]
-            if dead:
+            if st == "died":
                 reproduced = True  # the real code terminated the process
                 info["natives"][key + " verdict"] = "process died"
                 continue
-            subs = ms + [(c.out, z3.BitVecVal(o, c.out.size())) for (c, _), o in zip(calls, outs)]
-            g = self.eval_under(ob.goal, subs)
+            pre = self.eval_under(ob.assume, st) if ob.assume is not None else z3.BoolVal(True)
+            g = self.eval_under(ob.goal, st)
             info["natives"][key + " goal"] = str(g)
-            if z3.is_false(g):
+            if z3.is_false(g) and not z3.is_false(pre):
                 reproduced = True
         return ("reproduced" if reproduced else "not-reproduced"), info
 
